@@ -68,12 +68,16 @@ reader:
 			if err != nil {
 				return err
 			}
-			return ErrorCode(r.writer, newErrClientCopyFailed(desc))
+
+			// NOTE: the error is returned to the caller which is expected to abort
+			// the copy operation by returning it. The error is reported to the
+			// client once the command has been ended.
+			return newErrClientCopyFailed(desc)
 		default:
 			// Receipt of any other non-copy message type constitutes an error that
 			// will abort the copy-in state as described above.
 			// https://www.postgresql.org/docs/current/protocol-flow.html#PROTOCOL-COPY
-			return ErrorCode(r.writer, NewErrUnimplementedMessageType(typed))
+			return NewErrUnimplementedMessageType(typed)
 		}
 	}
 }
